@@ -73,16 +73,15 @@ Fixpoint index_of (c : N) (t : list N) (k : Z) : res Z :=
   end.
 Definition table_index (c : N) : res Z := index_of c rad50_table_codes 0%Z.
 
-(* metacommands.rad50, one character: [u] is char.upper() (Python may return several code points) *)
-Definition site_rad50_char (u : list N) : res Z :=
+Definition ascii_upper (c : N) : N := if (97 <=? c) && (c <=? 122) then c - 32 else c.
+
+(* metacommands.rad50, one character c (any code point): non-ASCII raises ValueError(char) explicitly; on ASCII
+   str.upper() is ascii_upper *)
+Definition site_rad50_char (c : N) : res Z :=
   catch rad50_caught
-    (match u with
-     | [c] => table_index c
-     | _ => Crash "ValueError"          (* raise ValueError(char) *)
-     end)
+    (if 128 <=? c then Crash "ValueError" else table_index (ascii_upper c))
     (Err ["invalid-character"]).
 
-Definition ascii_upper (c : N) : N := if (97 <=? c) && (c <=? 122) then c - 32 else c.
 Fixpoint nmem (c : N) (l : list N) : bool := match l with [] => false | x :: xs => (x =? c) || nmem c xs end.
 
 (* radix50.pack_to_int *)
